@@ -97,6 +97,17 @@ def scenarios(tier):
                 scn = wfscn.ProgScenario('enum%d.%d/%s' % (n, i, tag), prog,
                                          results=res)
                 jobs.append((scn, None, 60 if quick else 900, 1, ai + 0.7))
+    # every pair of language features on one task of a small skeleton
+    for name, (prog, assigns) in wfgen.feature_pairs().items():
+        for ai, res in enumerate(assigns):
+            tag = ''.join(''.join(res[k]) for k in sorted(res))
+            kw = {}
+            if 'subwf' in name or 'items' in name:
+                kw['compare_ctx'] = False
+            scn = wfscn.ProgScenario('%s/%s' % (name, tag), prog,
+                                     results=res, **kw)
+            jobs.append((scn, 1 if quick else 2, 60 if quick else 900, 1,
+                         ai + 0.8))
     # every program first with its first assignment, then the second, ...
     jobs.sort(key=lambda j: j[4])
     return [j[:4] for j in jobs]
@@ -123,7 +134,7 @@ def main(tier):
         'probability negligible)',
     ]
     return rep.finish(
-        rule='curated direct-workflow programs (incl. bounded cycles) + every direct DAG shape over <= 3 tasks x action-result assignments; '
+        rule='curated direct-workflow programs (incl. bounded cycles) + every direct DAG shape over <= 3 tasks + every pair of 14 language features on one task of a 4-task skeleton x action-result assignments; '
              'DFS over interleavings of message deliveries, post-commit '
              'operations and scheduler steps on the real engine; a state is '
              'the canonical DB image + pending messages + suspended '
